@@ -54,6 +54,7 @@ def main (args : List String) : IO UInt32 := do
   | ["secrecy"] => loopPure stdin stdout secrecyStep; return 0
   | ["codec"] => loopPure stdin stdout codecStep; return 0
   | "crash" :: _ => loopState stdin stdout crashStep ({} : CrashSt); return 0
+  | "dispatch" :: _ => loopState stdin stdout dispatchStep dispatchInit; return 0
   | ["store", backend] =>
     match storeInit backend with
     | some st => loopState stdin stdout storeStep st; return 0
